@@ -25,7 +25,7 @@ P = {
  "C17": ("metamorphic: lex(BOM+s) shifted by (3 bytes, 1 char) == lex(s) including lines, columns, payloads, errors", "metamorphic relation over generated inputs", "5/C17"),
  "C18": ("differential between the macro_sep and default feature builds of the same tree linked into one process: equal after removing MacroSep and renumbering; placement rules of MacroSep", "differential of two build configurations over generated inputs", "5/C18"),
  "C19": ("differential: debug-assertion vs optimized build in one process (a failure of exactly one of them is the violation); 16 threads lexing batches concurrently vs single-threaded; re-lexing after other inputs; stable vs nightly toolchain harness digests", "differential across builds, threads, history and toolchains over generated inputs", "5/C19"),
- "C20": ("Hypothesis against the real extension module built from the tree: own msgpack decoder, positional decoding through the shipped dataclass field order, tiling/line/column/enum/payload contract in Python (also for str with unpaired surrogates); the package's public lex_program_from_str run end to end through a msgspec stand-in and compared with the payload; call histories (a same-length neighbour lexed right before; small programs after a payload above 1 MiB); every low code point at the borders of the source; token / error / literal-buffer counts around 2^4, 2^8, 2^16; enum files compared with regenerated ones and with the linked crate's declarations (names, numbers, message texts)", "Hypothesis property-based testing of the binding + exhaustive enum comparison", "5/C20"),
+ "C20": ("Hypothesis against the real extension module built from the tree: own msgpack decoder, positional decoding through the shipped dataclass field order, tiling/line/column/enum/payload contract in Python (also for str with unpaired surrogates); the package's public lex_program_from_str run end to end through a msgspec stand-in and compared with the payload; call histories (a same-length neighbour lexed right before; small programs after a payload above 1 MiB); every low code point at the borders of the source; token / error / literal-buffer counts around 2^4, 2^8, 2^16; a differential against a plain Rust program linking the same lexer crate as the binding (py/refdump); enum files compared with regenerated ones and with the linked crate's declarations (names, numbers, message texts)", "Hypothesis property-based testing of the binding + exhaustive enum comparison", "5/C20"),
 }
 checks = []
 na = []
